@@ -5,6 +5,9 @@ for d in seeded/*/; do
   n=$(basename $d); p=${n%%-*}
   if [ $# -gt 0 ] && [[ ! " $* " =~ " $p " ]]; then continue; fi
   if ! git -C /repo apply "$(realpath $d/patch.diff)" 2>/dev/null; then echo "$n: patch does not apply"; continue; fi
+  # a change seeded for one property may fall into the code another property's check covers (meta.json: checked_by)
+  c=$(python3 -c "import json,sys; print(json.load(open('$d/meta.json')).get('checked_by') or '$p')" 2>/dev/null || echo $p)
+  p=$c
   if ./check $p quick 2>/dev/null | grep -q "^VIOLATION property=$p"; then echo "$n: CAUGHT"; else echo "$n: MISSED"; fi
   git -C /repo checkout -- .
 done
